@@ -106,9 +106,14 @@ def onSignal (c : C) (sig : Nat) : C :=
   | .quit m => (quitCtls m).foldl (fun c ctls => { c with x := doSend c.x .normal ctls false }) { c with quitCount := c.quitCount + 1 }
   | .pass sigs => sigs.foldl (fun c g => { c with x := doSend c.x .normal [.signal g] false }) c
 
+/-- a keyboard EOF event delivered to the action handler: with `--stdin-quit` the same quit, else the batch is skipped (no query) -/
+def onEofEv (c : C) : C :=
+  match onEof c.cfg c.quitCount with
+  | some m => (quitCtls m).foldl (fun c ctls => { c with x := doSend c.x .normal ctls false }) { c with quitCount := c.quitCount + 1 }
+  | none => c
 
 /-- one scripted event of the CLI streams -/
-inductive Ev | init | chg | sig (n : Nat) | mix (n : Nat) | settle | advance (ms : Nat)
+inductive Ev | init | chg | sig (n : Nat) | mix (n : Nat) | eof | settle | advance (ms : Nat)
   deriving Repr, DecidableEq
 
 def stepEv (c : C) : Ev → List C
@@ -118,6 +123,7 @@ def stepEv (c : C) : Ev → List C
   | .mix n => if c.quitCount > 0 then [c] else
       let c' := onSignal c n
       if c'.quitCount > 0 then [c'] else [onEvent c']
+  | .eof => if c.quitCount > 0 then [c] else [onEofEv c]
   | .settle => settleC 300 c
   | .advance ms => advanceC 64 (c.x.st.now + ms) c
 
